@@ -39,7 +39,8 @@ ASSUMPTIONS = ["the document's own prose defines no id attributes or '#...' link
 RULE = ("Markdown documents with 1-3 independent recipes (```new-recipe) of 1-3 blocks each; sub recipes with single and "
         "multiple outputs, adversarial output names (spaces, punctuation, quotes, < > &, non-ASCII, names made only of "
         "punctuation, embedded scaled numbers {n}, pairs that sanitise to the same id), references with every amount "
-        "form, across blocks, references to the second / third output of a multi-output sub recipe with quantities, "
+        "form, across blocks, documents with 21-23 independent recipes re-using sub recipe names (prefixes recipe11-, "
+        "recipe21- ...), references to the second / third output of a multi-output sub recipe with quantities, "
         "proportions and whole amounts next to an inlined single-use sub recipe (the link must land on the list item "
         "of the output NAMED in the source), statements that consist solely of a reference (root-level reference cells, in first and "
         "later independent recipes, in the defining and in later blocks), documents in which a later block of the same recipe re-defines an output name (must be "
@@ -211,6 +212,20 @@ def gen_multiref_doc(rng: random.Random) -> Tuple[str, List[Optional[str]]]:
             fence = "new-recipe" if (bi == 0 and ri > 0) else "recipe"
             parts.append(f"```{fence}\n" + "\n".join(b) + "\n```\n")
     return "\n".join(parts), expect
+
+
+def gen_many_doc(rng: random.Random) -> str:
+    """ONE document with 21-23 tiny independent recipes; the sub recipe names repeat every few recipes, so recipes
+    1 / 11 / 21, 2 / 12 / 22 ... define and reference sub recipes of the same name: their ids and links may only
+    differ in the per-recipe prefix (recipe-, recipe2-, ..., recipe11-, ..., recipe21-)."""
+    n = rng.choice((21, 22, 23))
+    names = [quote(rand_name(rng)) if rng.random() < 0.5 else rng.choice(["sauce", "stock", "a b"]) for _ in range(rng.choice((1, 2, 5)))]
+    parts = ["# Title for 2\n"]
+    for ri in range(n):
+        nm = names[ri % len(names)]
+        lines = [f"{nm} := do(ing{ri})", f"mix({rng.choice(PARTIAL)}{nm}, x{ri})", rng.choice(REST) + nm]
+        parts.append(("```new-recipe\n" if ri > 0 else "```recipe\n") + "\n".join(lines) + "\n```\n")
+    return "\n".join(parts)
 
 
 def gen_redefine_doc(rng: random.Random) -> str:
@@ -471,6 +486,7 @@ def suites(tier: str, seed: int) -> List[Suite]:
     docs += [gen_redefine_doc(rng) for _ in range(20 if tier == "quick" else 200)]
     docs += [gen_rootref_doc(rng) for _ in range(30 if tier == "quick" else 300)]
     multiref = [gen_multiref_doc(rng) for _ in range(40 if tier == "quick" else 400)]
+    many = [gen_many_doc(rng) for _ in range(2 if tier == "quick" else 12)]
     seen = set()
     for d in docs:
         for sc in ([1, 2, Fraction(1, 3)] if d in HAND_DOCS else rng.sample(SCALES, 2)):
@@ -487,6 +503,12 @@ def suites(tier: str, seed: int) -> List[Suite]:
                         continue
                     seen.add(c.key())
                     su.cases.append(c)
+    for d in many:
+        c = ids_case({"doc": d, "scale": coqio.num_json(rng.choice([1, 2]))})
+        if c is not None and c.key() not in seen:
+            seen.add(c.key())
+            c.tags = list(c.tags) + ["ids:many-recipes"]
+            su.cases.append(c)
     for d, ex in multiref:
         for sc in rng.sample(SCALES, 2):
             c = ids_case({"doc": d, "scale": coqio.num_json(sc), "expect": ex})
